@@ -481,3 +481,59 @@ class MulToUF:
             out_lines.append(chain.sub(repl, ln) if " * " in ln else ln)
         report.append({"where": where, "rule": self.pat, "fires": n, "expected": "*", "note": self.note})
         return "\n".join(out_lines)
+
+
+def init_list(head):
+    """Member initialiser list of a constructor head (text between the locator and the body's `{`)
+    -> [(member, expression text)] in source order; anything unparsed raises ExtractionDrift."""
+    i = head.index("(")
+    j = match_close(head, i, "(", ")")
+    rest = head[j + 1 :]
+    k = rest.find(":")
+    if k < 0:
+        return []
+    s = rest[k + 1 :]
+    items = []
+    pos = 0
+    pat = re.compile(r"\s*,?\s*(\w+)\s*([({])")
+    while True:
+        m = pat.match(s, pos)
+        if not m:
+            break
+        o = m.end() - 1
+        c = match_close(s, o, m.group(2), ")" if m.group(2) == "(" else "}")
+        items.append((m.group(1), s[o + 1 : c].strip()))
+        pos = c + 1
+    if s[pos:].strip():
+        raise ExtractionDrift("unparsed member initialiser text %r" % s[pos:].strip()[:60])
+    return items
+
+
+class TempCall:
+    """`return Name{args}(rng);` / `return Name(args)(rng);` (construct a temporary functor and call it)
+    -> `{ Name tmp_; CTOR(&tmp_, args); return CALL(&tmp_, rng); }`"""
+
+    def __init__(self, name, ctor, call, fires=1, note=None):
+        self.name, self.ctor, self.call, self.fires = name, ctor, call, fires
+        self.note = note or "temporary functor construct-and-call -> constructor function + call function"
+        self.pat = "tempcall[%s]" % name
+
+    def apply(self, text, report, where):
+        n = 0
+        while True:
+            m = re.search(r"return\s+%s\s*([({])" % re.escape(self.name), text)
+            if not m:
+                break
+            o = m.end() - 1
+            c = match_close(text, o, m.group(1), ")" if m.group(1) == "(" else "}")
+            tail = re.match(r"\s*\(\s*rng\s*\)\s*;", text[c + 1 :])
+            if not tail:
+                raise ExtractionDrift("temporary %s is not called with (rng) in %s" % (self.name, where))
+            args = text[o + 1 : c]
+            rep = "{ %s tmp_; %s(&tmp_, %s); return %s(&tmp_, rng); }" % (self.name, self.ctor, args, self.call)
+            text = text[: m.start()] + rep + text[c + 1 + tail.end() :]
+            n += 1
+        if n != self.fires:
+            raise ExtractionDrift("rule %r fired %d times in %s, expected %s" % (self.pat, n, where, self.fires))
+        report.append({"where": where, "rule": self.pat, "fires": n, "expected": str(self.fires), "note": self.note})
+        return text
